@@ -15,7 +15,8 @@ MSG   = `{"t":"append",…} | {"t":"chunk",…} | {"t":"snap",…} | {"t":"apply
 OUT   = `["send",dst,MSG] | ["cb",id,code] | ["addNode",n] | ["dropNode",n]`
 
 ops: `send` (one destination), `sendall`, `check`, `submit`, `recv_apply`, `recv_response`,
-`leader_changed`, `fappend`, `restore`, `reapply`, `chunks`, `fold`, `admin_remove`.
+`leader_changed`, `fappend`, `restore`, `reapply`, `chunks`, `fold`, `admin_remove`, `rounds`
+(`send` takes `"match": null | n` = the destination's matchIndex, repair D62).
 -/
 namespace Driver.NodeSend
 open Lean PSO.NodeSend
@@ -314,6 +315,15 @@ def handle (j : Json) : Except String Json := do
     match reapplyAtCommit s (← jEntry (← fld j "entry")) with
     | .error e => return errJ e
     | .ok (s', o) => return Json.mkObj [("out", outsJ o), ("state", stateJ s')]
+  | "rounds" =>
+    let cfg ← jConf (← fld j "conf")
+    let s ← jState (← fld j "state")
+    let c : SendCfg := ⟨← jNat (← fld j "B"), ← jNat (← fld j "term"), ← jNat (← fld j "commit"), none, none⟩
+    match deliverRounds cfg (← jNat (← fld j "from")) c (← jEntries (← fld j "log")) (← jNat (← fld j "k"))
+        (← jNat (← fld j "next")) (← jNat (← fld j "match")) s with
+    | .error e => return errJ e
+    | .ok (s', nx, m, bs) => return Json.mkObj [("state", stateJ s'), ("next", nat nx), ("match", nat m),
+        ("batches", Json.arr (bs.map fun b => Json.arr ((b.entries.map fun e => nat e.idx).toArray)).toArray)]
   | "chunks" =>
     let B ← jNat (← fld j "B")
     let E ← jNat (← fld j "E")
